@@ -207,7 +207,45 @@ fn es_classes_tc(tcs: &[u8]) -> Vec<ClassSpec> {
 
 // ------------------------------------------------------------------ per property
 
+/// `--replay <file>`: judge only the input recorded in a replay file of this property.
+fn replay(ctx: &Ctx, path: &str) -> i32 {
+    let mut col = Collector::new();
+    let v: serde_json::Value = match std::fs::read_to_string(path).ok().and_then(|t| serde_json::from_str(&t).ok()) {
+        Some(v) => v,
+        None => {
+            println!("INCONCLUSIVE property={} replay file {path} not readable", ctx.prop);
+            return 2;
+        }
+    };
+    let mut n = 0;
+    for key in ["frame_hex", "base_hex"] {
+        if let Some(h) = v["input"][key].as_str() {
+            if let Some(bytes) = vref::bits::unhex(h) {
+                let (exp, o) = obs::judge(&ctx.g, &mut col, &bytes);
+                n += 1;
+                println!("replay {key}={h} class={} expected={:?} observed={}", exp.class, exp.verdict, match &o.res { Res::Ok(ok) => ok.debug.clone(), Res::Err(e) => format!("Err({e})"), Res::Panic { loc, .. } => format!("panic at {loc}") });
+                if let Some(b) = v["input"]["flipped_bit"].as_u64() {
+                    let mut m = bytes.clone();
+                    flipbit(&mut m, b as usize);
+                    obs::judge(&ctx.g, &mut col, &m);
+                }
+            }
+        }
+    }
+    if n == 0 {
+        println!("INCONCLUSIVE property={} the replay file holds no frame", ctx.prop);
+        return 2;
+    }
+    let info = ctx.info("exploration", "replay of one recorded input", &[], 1);
+    col.sample(v["input"].clone());
+    let distinct = col.distinct.len().max(2) as u64;
+    crate::collect::finish(&info, &col, n, distinct, false, json!({"replay_of": path}))
+}
+
 pub fn run(ctx: &Ctx) -> i32 {
+    if let Some(p) = ctx.flag("--replay") {
+        return replay(ctx, &p);
+    }
     let mut col = Collector::new();
     let mut exhaustive = false;
     let mut extra = json!({});
@@ -1278,6 +1316,35 @@ fn c11(ctx: &Ctx, col: &mut Collector, extra: &mut serde_json::Value) {
             if r.chance(0.3) {
                 setbits(&mut m, 20, 32, *r.pick(&[0u64, 0x1FFF, 0x0040, 0x0010]));
             }
+            obs::judge(&ctx.g, col, &m);
+        }
+    });
+    col.merge(c);
+    // renderer branches hang on narrow values (altitude exactly 0, rate code 1 = 0 ft/min, ...):
+    // every altitude code and every vertical-rate code is rendered at least once
+    let c = par_units(ctx, "c11-altcodes", 64, |i, r, col, _| {
+        for lo in 0..128u32 {
+            let code = (i as u32) * 128 + lo; // 13 bit
+            for df in [0u8, 4, 16, 20] {
+                let mut m = ClassSpec { df, hdr3: None, tc: None, st: None, bds: if df == 20 { Some(0x20) } else { None } }.make(r);
+                setbits(&mut m, 20, 32, u64::from(code));
+                obs::judge(&ctx.g, col, &m);
+            }
+            if code < 4096 {
+                for (df, tc) in [(17u8, 11u8), (18, 20), (17, 22), (18, 9)] {
+                    let mut m = ClassSpec { df, hdr3: Some(r.below(8) as u8), tc: Some(tc), st: None, bds: None }.make(r);
+                    setbits(&mut m, 32 + 9, 32 + 20, u64::from(code));
+                    obs::judge(&ctx.g, col, &m);
+                }
+            }
+        }
+    });
+    col.merge(c);
+    let c = par_units(ctx, "c11-rates", 2048, |i, r, col, _| {
+        for st in 1..=4u8 {
+            let me = encode::me_velocity(st, r.below(32) as u8, r.below(2) as u8, r.range(0, 1023) as u16, r.below(2) as u8, r.range(0, 1023) as u16, (i >> 10) as u8 & 1, (i >> 9) as u8 & 1, (i & 511) as u16, r.below(2) as u8, *r.pick(&[0u8, 1, 2, 127]));
+            let df = if r.chance(0.7) { 17 } else { 18 };
+            let m = encode::long_frame(df, r.below(8) as u8, (r.next() & 0xFF_FFFF) as u32, &me);
             obs::judge(&ctx.g, col, &m);
         }
     });
